@@ -154,6 +154,15 @@ func (e *Eng) evalSpec(st *State, x *SExpr, env map[string]*Val, old map[string]
 			case "asInt":
 				a := e.evalSpec(st, x.Args[1], env, old)
 				return scalar("(iint "+a.T+")", "Int", nil)
+			case "local":
+				// local(x): x is nil or was allocated by the function under verification
+				a := e.evalSpec(st, x.Args[1], env, old)
+				e.declareOnce("(declare-fun islocal (Int) Bool)")
+				t := a.T
+				if a.Sort == "Slice" {
+					t = a.Elems[0].T
+				}
+				return scalar(fmt.Sprintf("(or (= %s 0) (islocal %s))", t, t), "Bool", nil)
 			case "isZero":
 				a := e.evalSpec(st, x.Args[1], env, old)
 				if a.Sort == "Int" && a.Go != nil {
